@@ -85,6 +85,8 @@ pub struct Cfg {
     pub max_depth: usize,
     pub max_lazy: usize,
     pub perturb: bool,
+    /// pre-rendered replay JSON up to the operation list (crash guard)
+    pub note_prefix: String,
 }
 
 pub struct Store<T, U> {
@@ -1071,6 +1073,7 @@ impl<T: Kind, U: Kind> McSystem for Store<T, U> {
     type Op = Op;
 
     fn run(&self, ops: &[Op], full: bool) -> Outcome<Op> {
+        crate::util::crash_note(&format!("{}{}}}", self.cfg.note_prefix, serde_json::to_string(ops).unwrap_or_default()));
         let base = match catch(|| self.run_inner(ops, full)) {
             Ok(o) => o,
             Err(msg) => {
@@ -1113,7 +1116,7 @@ impl<T: Kind, U: Kind> Store<T, U> {
             let a = ledger_drops();
             r.apply(&ops[ops.len() - 1]);
             let b = ledger_drops();
-            drop(r);
+            let _ = Self::teardown(r);
             (a, b, ledger_drops())
         };
         let mut injected = 0u64;
@@ -1235,10 +1238,80 @@ impl<T: Kind, U: Kind> Store<T, U> {
             if let Some(e) = ledger_errors().into_iter().next() {
                 return Some(format!("ledger: after the caught panic: {}", e));
             }
+            // The storage must keep behaving as a map: re-synchronise the model from
+            // what is observable now, then run a scripted sequence that exercises
+            // insertion, middle/first/last removal and re-insertion, checking every
+            // lookup after every step.
+            let script = catch(|| {
+                // the panicking operation may have killed entities before it unwound: ask the world
+                let alive: Vec<Entity> = {
+                    let ents = r.w.entities();
+                    r.ents.iter().copied().filter(|h| ents.is_alive(*h)).collect()
+                };
+                let n = alive.len();
+                if n == 0 {
+                    return None;
+                }
+                let mut st = r.w.write_storage::<T>();
+                let mut model: BTreeMap<u32, u32> = BTreeMap::new();
+                for h in &alive {
+                    if let Some(c) = st.get(*h) {
+                        model.insert(h.id(), c.observe());
+                    }
+                }
+                let mut next = 50_000u32;
+                // (is_insert, entity position)
+                let mut steps: Vec<(bool, usize)> = vec![];
+                for i in 0..n {
+                    steps.push((true, i));
+                }
+                steps.extend([(false, 1 % n), (false, 0), (true, 1 % n), (true, 0), (false, n - 1), (false, 0), (true, n - 1), (true, 0)]);
+                for i in 0..n {
+                    steps.push((false, i));
+                }
+                for (k, (ins, i)) in steps.iter().enumerate() {
+                    let h = alive[*i];
+                    if *ins {
+                        next += 1;
+                        let want = model.insert(h.id(), Self::zv_t(next));
+                        let got = st.insert(h, T::make(next)).ok().map(|o| o.map(|t| t.returned()));
+                        if got != Some(want) {
+                            return Some(format!("follow-up-map: step {} insert({}) returned {:?}, map model {:?}", k, h.id(), got, want));
+                        }
+                    } else {
+                        let want = model.remove(&h.id());
+                        let got = st.remove(h).map(|t| t.returned());
+                        if got != want {
+                            return Some(format!("follow-up-map: step {} remove({}) returned {:?}, map model {:?}", k, h.id(), got, want));
+                        }
+                    }
+                    for h2 in &alive {
+                        let got = st.get(*h2).map(|c| c.observe());
+                        let want = model.get(&h2.id()).copied();
+                        if got != want {
+                            return Some(format!("follow-up-map: after step {} get({}) = {:?}, map model {:?}", k, h2.id(), got, want));
+                        }
+                    }
+                }
+                None
+            });
+            match script {
+                Err(m) => return Some(format!("follow-up-panic: the storage is not usable after the caught panic: {}", m)),
+                Ok(Some(m)) => return Some(m),
+                Ok(None) => {}
+            }
+            if let Some(e) = ledger_errors().into_iter().next() {
+                return Some(format!("ledger: during the follow-up after the caught panic: {}", e));
+            }
         }
         // teardown (the injected panic may fire here)
-        let res = catch(move || drop(r));
-        if res.is_err() && in_last && ledger_panicked() {
+        let before = ledger_panicked();
+        let panics = Self::teardown(r);
+        let res: Result<(), ()> = if panics > 0 { Err(()) } else { Ok(()) };
+        if panics > 1 || (panics == 1 && before) {
+            return Some("teardown-panic: world teardown panicked again after the injected panic had already fired".into());
+        }
+        if res.is_err() && in_last && ledger_panicked() && before {
             // the only injected panic already fired: a second one is a bug
             return Some("teardown-panic: world teardown panicked after the injected panic had already fired".into());
         }
@@ -1246,6 +1319,31 @@ impl<T: Kind, U: Kind> Store<T, U> {
             return Some(format!("ledger: at world teardown: {}", e));
         }
         None
+    }
+
+    /// World teardown in three steps so that an unwinding destructor does not make
+    /// shred's resource map leak everything it had not dropped yet (the map's own
+    /// drop has no guard): the lazy queue, then each storage (their `Drop` is the
+    /// code under test), then the rest of the world. Returns the number of steps
+    /// that panicked.
+    fn teardown(mut r: Run<T, U>) -> usize {
+        let mut panics = 0;
+        let lazy = r.w.remove::<LazyUpdate>();
+        if catch(move || drop(lazy)).is_err() {
+            panics += 1;
+        }
+        let st = r.w.remove::<specs::storage::MaskedStorage<T>>();
+        if catch(move || drop(st)).is_err() {
+            panics += 1;
+        }
+        let su = r.w.remove::<specs::storage::MaskedStorage<U>>();
+        if catch(move || drop(su)).is_err() {
+            panics += 1;
+        }
+        if catch(move || drop(r)).is_err() {
+            panics += 1;
+        }
+        panics
     }
 
     fn zv_t(v: u32) -> u32 {
@@ -1344,7 +1442,7 @@ pub fn plan(prop: Prop, thorough: bool) -> Vec<(usize, Cfg)> {
         // call, so C19 keeps the layouts compact (still straddling the 63/64 word
         // boundary) and enumerates every call
         (Prop::C19, false) => vec![vec![0, 1, 2], vec![5, 63, 64]],
-        (Prop::C19, true) => vec![vec![0, 1, 2, 3], vec![5, 63, 64], vec![0, 64, 130]],
+        (Prop::C19, true) => vec![vec![0, 1, 2], vec![5, 63, 64], vec![0, 64, 130], vec![0, 1, 2, 3]],
         (Prop::C12, false) => vec![vec![0, 1, 2], vec![63, 64, 4096]],
         (Prop::C12, true) => vec![vec![0, 1, 2, 3], vec![63, 64, 4095, 4096]],
         (Prop::C20, _) => vec![vec![0, 1, 70]],
@@ -1357,7 +1455,7 @@ pub fn plan(prop: Prop, thorough: bool) -> Vec<(usize, Cfg)> {
         if prop == Prop::C12 && k.track == Track::None {
             continue;
         }
-        for layout in layouts.iter() {
+        for (li, layout) in layouts.iter().enumerate() {
             // a teardown panic legitimately leaks the rest of the world (hash map
             // drop has no guard), so keep the default-filled gaps short there
             let layout = if prop == Prop::C19 && k.name.contains("DefVec") && layout.iter().any(|i| *i > 8) {
@@ -1366,11 +1464,11 @@ pub fn plan(prop: Prop, thorough: bool) -> Vec<(usize, Cfg)> {
                 layout
             };
             let depth = match prop {
-                Prop::C19 => if thorough { 4 } else { 3 },
+                Prop::C19 => (if thorough { 5 } else { 4 }) - if li == 0 { 0 } else { 1 },
                 Prop::C20 => 3,
                 _ => 16,
             };
-            out.push((ki, Cfg { prop, layout: layout.clone(), max_depth: depth, max_lazy: if thorough { 2 } else { 1 }, perturb: false }));
+            out.push((ki, Cfg { prop, layout: layout.clone(), max_depth: depth, max_lazy: if thorough { 2 } else { 1 }, perturb: false, note_prefix: format!("{{\"engine\":\"mc-store\",\"property\":\"{:?}\",\"kind\":\"{}\",\"layout\":{:?},\"oracle\":\"process crash inside a specs operation\",\"ops\":", prop, k.name, layout) }));
         }
     }
     out
@@ -1382,6 +1480,7 @@ pub fn main() {
     if let Some(path) = &cli.replay {
         replay(&cli, path);
     }
+    crate::util::crash_guard(&cli.root, &cli.property);
     let prop = parse_prop(&cli.property);
     let kinds = all_kinds();
     let plan = plan(prop, cli.thorough());
@@ -1465,12 +1564,13 @@ fn replay(cli: &Cli, path: &std::path::Path) -> ! {
     let txt = std::fs::read_to_string(path).unwrap_or_else(|e| machinery_error(&format!("cannot read replay: {e}")));
     let v: serde_json::Value = serde_json::from_str(&txt).unwrap_or_else(|e| machinery_error(&format!("bad replay: {e}")));
     let prop = parse_prop(v["property"].as_str().unwrap_or(&cli.property));
+    crate::util::crash_guard_tagged(&cli.root, &format!("{:?}", prop), "replay-crash");
     let kinds = all_kinds();
     let kname = v["kind"].as_str().unwrap_or("");
     let k = kinds.iter().find(|k| k.name == kname).unwrap_or_else(|| machinery_error("replay: unknown kind"));
     let layout: Vec<u32> = serde_json::from_value(v["layout"].clone()).unwrap_or_else(|_| machinery_error("replay: bad layout"));
     let ops: Vec<Op> = serde_json::from_value(v["ops"].clone()).unwrap_or_else(|e| machinery_error(&format!("bad ops: {e}")));
-    let cfg = Cfg { prop, layout, max_depth: ops.len(), max_lazy: 2, perturb: false };
+    let cfg = Cfg { prop, layout: layout.clone(), max_depth: ops.len(), max_lazy: 2, perturb: false, note_prefix: format!("{{\"engine\":\"mc-store\",\"property\":\"{:?}\",\"kind\":\"{}\",\"layout\":{:?},\"oracle\":\"process crash inside a specs operation\",\"ops\":", prop, kname, layout) };
     let o1 = (k.run)(&cfg, &ops);
     let mut c2 = cfg.clone();
     c2.perturb = true;
